@@ -38,9 +38,24 @@ Definition SInv (st : store) : Prop :=
   s_clock st <> 0.
 
 Definition Fresh (st : store) (nd : node) : Prop := n_reg nd = read_reg st.
+
+Definition is_load (o : opk) : bool := match o with OLoad => true | _ => false end.
+Definition ctx_load (c : ctx) : bool := match c with CLoad _ _ _ => true | CGrd _ => false end.
+
+(* registry entry and config document agree (a previous version may linger) *)
+Definition steady (st : store) (d : N) : Prop :=
+  exists e c cf, aget (regc st) d = Some e /\ aget (s_cfg st) d = Some (c, cf) /\
+                 e_cur e = RV (c_ver cf) (eff (c_colls cf)).
+(* the only database whose entry a node may change: its own target; a loader only one that is not steady *)
+Definition wr_key (st : store) (nd : node) (k : N) : Prop :=
+  if is_load (n_op nd) then ~ steady st k else k = op_db (n_op nd).
+
+(* the in-memory registry is based on the stored one (same CAS), differs from it at one database at most, and
+   is linked with the stored config documents *)
 Definition WriteReady (st : store) (nd : node) : Prop :=
   sn_cas (n_reg nd) = sn_cas (read_reg st) /\
-  forall d, linked (aget (sn_reg (n_reg nd)) d) (aget (s_cfg st) d).
+  (forall d, linked (aget (sn_reg (n_reg nd)) d) (aget (s_cfg st) d)) /\
+  exists k, (forall d, d <> k -> aget (sn_reg (n_reg nd)) d = aget (regc st) d) /\ wr_key st nd k.
 
 Definition del_entry (e : rentry) (pv : ver) : Prop :=
   rv_ver (e_cur e) = v_deleted /\ exists p, e_prev e = Some p /\ rv_ver p = pv.
@@ -67,8 +82,6 @@ Definition main_shape (o : opk) (cs : option (N * config)) (NR : registry) (C : 
   | _, _ => False
   end.
 
-Definition is_load (o : opk) : bool := match o with OLoad => true | _ => false end.
-Definition ctx_load (c : ctx) : bool := match c with CLoad _ _ _ => true | CGrd _ => false end.
 (* the program counter belongs to the operation *)
 Definition opwf (nd : node) : Prop :=
   match n_pc nd with
@@ -96,8 +109,9 @@ Definition NodeInv (st : store) (nd : node) : Prop :=
       Fresh st nd /\ (exists e, aget NR dd = Some e /\ rv_ver (e_cur e) = want /\ is_deleted want = false) /\
       (ctx_load c = false -> dd = d)
   | PRbTouch c dd cas cf =>
-      Fresh st nd /\ aget C dd = Some (cas, cf) /\
-      exists e, aget NR dd = Some e /\ e_prev e = Some (RV (c_ver cf) (eff (c_colls cf)))
+      Fresh st nd /\ aget C dd = Some (cas, cf) /\ (ctx_load c = false -> dd = d) /\
+      exists e, aget NR dd = Some e /\ e_prev e = Some (RV (c_ver cf) (eff (c_colls cf))) /\
+                rv_ver (e_cur e) <> c_ver cf
   | PMainWrite cs => WriteReady st nd /\ main_shape (n_op nd) cs NR C
   | PInsCfg =>
       match n_op nd with
@@ -141,7 +155,7 @@ Lemma write_ready st nd :
   exists st' sn', write_reg st (n_reg nd) = Some (st', sn') /\ SInv st' /\ read_reg st' = sn' /\
                   s_cfg st' = s_cfg st /\ sn_reg sn' = sn_reg (n_reg nd).
 Proof.
-  intros (HL & HC & HK) [Hc HW]. unfold write_reg.
+  intros (HL & HC & HK) (Hc & HW & _). unfold write_reg.
   assert ((match s_reg st with
            | None => sn_cas (n_reg nd) =? 0
            | Some (c, _) => negb (sn_cas (n_reg nd) =? 0) && (c =? sn_cas (n_reg nd))
@@ -222,23 +236,28 @@ Proof. unfold live, v_deleted, gen. cbn. lia. Qed.
 (* a registry that differs from the stored one only at d *)
 Lemma WriteReady_aset st nd nd' d e :
   SInv st -> Fresh st nd -> n_reg nd' = SN (sn_cas (n_reg nd)) (aset (regc st) d e) ->
-  linked (Some e) (aget (s_cfg st) d) ->
+  linked (Some e) (aget (s_cfg st) d) -> wr_key st nd' d ->
   WriteReady st nd'.
 Proof.
-  intros (HL & _) HF E Hd. unfold WriteReady. rewrite E. cbn. split; [now rewrite HF|].
-  intros d'. destruct (N.eq_dec d' d) as [->|Hn].
-  - now rewrite aget_aset_eq.
-  - rewrite aget_aset_neq by congruence. apply HL.
+  intros (HL & _) HF E Hd Hk. unfold WriteReady. rewrite E. cbn. split; [now rewrite HF|]. split.
+  - intros d'. destruct (N.eq_dec d' d) as [->|Hn].
+    + now rewrite aget_aset_eq.
+    + rewrite aget_aset_neq by congruence. apply HL.
+  - exists d. split; [|exact Hk]. intros d' Hn. apply aget_aset_neq. congruence.
 Qed.
 Lemma WriteReady_adel st nd nd' d :
   SInv st -> Fresh st nd -> n_reg nd' = SN (sn_cas (n_reg nd)) (adel (regc st) d) ->
-  aget (s_cfg st) d = None -> WriteReady st nd'.
+  aget (s_cfg st) d = None -> wr_key st nd' d -> WriteReady st nd'.
 Proof.
-  intros (HL & _) HF E Hd. unfold WriteReady. rewrite E. cbn. split; [now rewrite HF|].
-  intros d'. destruct (N.eq_dec d' d) as [->|Hn].
-  - now rewrite aget_adel_eq, Hd.
-  - rewrite aget_adel_neq by congruence. apply HL.
+  intros (HL & _) HF E Hd Hk. unfold WriteReady. rewrite E. cbn. split; [now rewrite HF|]. split.
+  - intros d'. destruct (N.eq_dec d' d) as [->|Hn].
+    + now rewrite aget_adel_eq, Hd.
+    + rewrite aget_adel_neq by congruence. apply HL.
+  - exists d. split; [|exact Hk]. intros d' Hn. apply aget_adel_neq. congruence.
 Qed.
+
+Lemma wr_key_op st nd nd' : is_load (n_op nd) = false -> n_op nd' = n_op nd -> wr_key st nd' (op_db (n_op nd)).
+Proof. intros Hl E. unfold wr_key. now rewrite E, Hl. Qed.
 
 (* ---------- getRegistryAndDatabase returns ---------- *)
 Lemma grd_return_none st nd :
@@ -253,7 +272,7 @@ Proof.
   - rewrite ER. destruct (upsert (regc st) d (1, dig) cols) as [R'|] eqn:U.
     + unfold upsert in U. destruct (_ || _); [discriminate|]. injection U as <-.
       unfold NodeInv. cbn. rewrite ?Eo. cbn. split; [reflexivity|]. split.
-      * eapply WriteReady_aset; [exact HS | exact HF | reflexivity |]. rewrite Hc. cbn. left. split; [unfold live, gen; cbn; lia|].
+      * eapply WriteReady_aset; [exact HS | exact HF | reflexivity | | unfold wr_key; cbn; rewrite ?Eo; cbn; reflexivity]. rewrite Hc. cbn. left. split; [unfold live, gen; cbn; lia|].
         destruct Hr as [->|(e & -> & Hv)]; cbn; [now left|]. right. eexists. split; [reflexivity | exact Hv].
       * rewrite aget_aset_eq. eexists. split; reflexivity.
     + unfold NodeInv. cbn. auto.
@@ -277,13 +296,13 @@ Proof.
   - rewrite ER. destruct (upsert (regc st) d (gen (c_ver cf) + 1, dig) cols) as [R'|] eqn:U.
     + unfold upsert in U. destruct (_ || _); [discriminate|]. injection U as <-.
       unfold NodeInv. cbn. rewrite ?Eo. cbn. split; [reflexivity|]. split.
-      * eapply WriteReady_aset; [exact HS | exact HF | reflexivity |]. rewrite Hc. cbn. split; [exact Hlive|]. right. left.
+      * eapply WriteReady_aset; [exact HS | exact HF | reflexivity | | unfold wr_key; cbn; rewrite ?Eo; cbn; reflexivity]. rewrite Hc. cbn. split; [exact Hlive|]. right. left.
         rewrite He. cbn. rewrite Ecur. split; [reflexivity | cbn; lia].
       * rewrite aget_aset_eq. split; [exact Hc|]. split; [exact Hlive|]. eexists. split; reflexivity.
     + unfold NodeInv. cbn. auto.
   - rewrite ER. unfold delete_db. rewrite He.
     unfold NodeInv. cbn. rewrite ?Eo. cbn. split; [reflexivity|]. split.
-    + eapply WriteReady_aset; [exact HS | exact HF | reflexivity |]. rewrite Hc. cbn. split; [exact Hlive|]. right. right.
+    + eapply WriteReady_aset; [exact HS | exact HF | reflexivity | | unfold wr_key; cbn; rewrite ?Eo; cbn; reflexivity]. rewrite Hc. cbn. split; [exact Hlive|]. right. right.
       rewrite Hv. split; reflexivity.
     + rewrite aget_aset_eq. split; [exact Hc|]. split; [exact Hlive|]. eexists. cbn. rewrite Hv. repeat split.
 Qed.
@@ -395,7 +414,7 @@ Proof.
       { eapply (SInv_cfg_change st st1); eauto; [|lia]. rewrite He', Hn. cbn. right. split; [exact Hdel|]. eauto. }
       rewrite He in H. done_step H. split; [exact HS1|]. split; [|reflexivity].
       unfold NodeInv. cbn. split; [exact Hwf|]. split; [|split].
-      * eapply (WriteReady_adel st1 nd); [exact HS1 | eapply Fresh_cfg; eauto | | exact Hn].
+      * eapply (WriteReady_adel st1 nd); [exact HS1 | eapply Fresh_cfg; eauto | | exact Hn | unfold wr_key; cbn; now rewrite Hwf].
         cbn. f_equal. f_equal. rewrite HF. unfold regc, read_reg. now rewrite Hr.
       * apply aget_adel_eq.
       * exact Hn.
@@ -431,19 +450,23 @@ Proof.
         { apply N.ltb_ge. rewrite <- Hw. destruct Hcase as [H0|[_ H0]]; [rewrite H0; cbn; lia | lia]. }
         rewrite Ex2 in H.
         destruct expired; done_step H; (split; [exact HS|]; split; [|reflexivity]).
-        -- unfold NodeInv. cbn. split; [exact Hwf|]. split; [exact HF|]. split; [exact Hc|].
-           exists e. split; [exact He|]. destruct Hcase as [H0|[H0 _]]; [|exact H0].
-           exfalso. rewrite H0 in Hw. cbn in Hw. rewrite Hw in Ev.
-           assert (ver_eqb want want = true) by (now apply ver_eqb_eq). congruence.
+        -- assert (rv_ver (e_cur e) <> c_ver cf) as Hne.
+           { intros E. rewrite Hw in E. rewrite E in Ev.
+             assert (ver_eqb (c_ver cf) (c_ver cf) = true) by (now apply ver_eqb_eq). congruence. }
+           unfold NodeInv. cbn. split; [exact Hwf|]. split; [exact HF|]. split; [exact Hc|]. split; [exact Hdd|].
+           exists e. split; [exact He|]. split; [|exact Hne]. destruct Hcase as [H0|[H0 _]]; [|exact H0].
+           exfalso. apply Hne. now rewrite H0.
         -- unfold NodeInv, opwf. rewrite Hpc. split; [exact Hwf|]. split; [exact HF|]. split; [|exact Hdd]. exists e. auto.
     + destruct expired.
       * rewrite He in H. done_step H. split; [exact HS|]. split; [|reflexivity].
         unfold NodeInv. cbn. split; [exact Hwf|].
-        eapply (WriteReady_adel st nd); [exact HS | exact HF | | exact Hc]. cbn. now rewrite HF.
+        eapply (WriteReady_adel st nd); [exact HS | exact HF | | exact Hc |]; [cbn; now rewrite HF|].
+        unfold wr_key. cbn. rewrite Hwf. destruct c as [lc|la rest acc]; cbn; [now apply Hdd|].
+        intros (e0 & c0 & cf0 & _ & Hx & _). congruence.
       * done_step H. split; [exact HS|]. split; [|reflexivity].
         unfold NodeInv, opwf. rewrite Hpc. split; [exact Hwf|]. split; [exact HF|]. split; [|exact Hdd]. exists e. auto.
   - (* PRbTouch *)
-    destruct HN as (HF & Hc & e & He & Hp).
+    destruct HN as (HF & Hc & Hdd & e & He & Hp & Hne).
     assert (aget (regc st) d = Some e) as He' by (unfold regc; now rewrite <- HF).
     pose proof (HLk d) as HL. rewrite He', Hc in HL.
     destruct (cfg_touch st d cas) as [[st1 c1]|] eqn:T.
@@ -453,9 +476,13 @@ Proof.
       { eapply (SInv_cfg_change st st1); eauto; [|lia]. rewrite He', Hn. exact HL. }
       unfold rollback_db in H. rewrite He, Hp in H. done_step H. split; [exact HS1|]. split; [|reflexivity].
       unfold NodeInv. cbn. split; [exact Hwf|].
-      eapply (WriteReady_aset st1 nd); [exact HS1 | eapply Fresh_cfg; eauto | |].
+      assert (regc st1 = regc st) as Er1 by (unfold regc, read_reg; now rewrite Hr).
+      eapply (WriteReady_aset st1 nd); [exact HS1 | eapply Fresh_cfg; eauto | | |].
       * cbn. f_equal. f_equal. rewrite HF. unfold regc, read_reg. now rewrite Hr.
       * rewrite Hn. cbn. destruct HL as [Hlive _]. split; [exact Hlive|]. now left.
+      * unfold wr_key. cbn. rewrite Hwf. destruct c as [lc|la rest acc]; cbn; [now apply Hdd|].
+        intros (e0 & c0 & cf0 & He0 & Hc0 & Hcur0). rewrite Er1, He' in He0. injection He0 as <-.
+        rewrite Hn in Hc0. injection Hc0 as _ <-. apply Hne. now rewrite Hcur0.
     + exfalso. unfold cfg_touch in T. rewrite Hc, N.eqb_refl in T. discriminate.
   - (* PRbWriteG *)
     destruct (write_ready _ _ HS HN) as (st1 & sn1 & Wr & HS1 & Hrd & Hcf & Hsn). rewrite Wr in H. done_step H.
@@ -522,7 +549,7 @@ Proof.
         destruct Hack as (e0 & c0 & g & He0 & Hcur & Hc0). injection He0 as <-.
         rewrite Hc in Hc0. injection Hc0 as Ec Ecf. subst c0 cf.
         unfold NodeInv. cbn. rewrite ?Eo. cbn. split; [reflexivity|]. split.
-        -- eapply (WriteReady_aset st (set_reg nd (read_reg st))); [exact HS | exact HF | reflexivity |].
+        -- eapply (WriteReady_aset st (set_reg nd (read_reg st))); [exact HS | exact HF | reflexivity | | unfold wr_key; cbn; rewrite ?Eo; cbn; reflexivity].
            rewrite Hc. cbn. split; [|left; exact Hcur].
            pose proof (HLk d) as HL. rewrite He, Hc in HL. exact (proj1 HL).
         -- rewrite aget_aset_eq. exists (RE (e_cur e) None), c, g. auto.
@@ -531,7 +558,7 @@ Proof.
       destruct (aget (regc st) d) as [e|] eqn:He; done_step H; (split; [exact HS|]; split; [|reflexivity]);
         unfold NodeInv; cbn; rewrite ?Eo; cbn.
       * split; [reflexivity|]. split; [|split; [apply aget_adel_eq | exact HN]].
-        eapply (WriteReady_adel st (set_reg nd (read_reg st))); [exact HS | exact HF | reflexivity | exact HN].
+        eapply (WriteReady_adel st (set_reg nd (read_reg st))); [exact HS | exact HF | reflexivity | exact HN | unfold wr_key; cbn; rewrite ?Eo; cbn; reflexivity].
       * split; [exact I|]. split; [exact He | exact HN].
   - (* PFinWrite *)
     destruct HN as (HW & Hop).
@@ -694,4 +721,214 @@ Theorem acked_seq ops evs nd :
 Proof.
   intros Hm Hn Hpc. destruct (seq_invariant ops evs Hm) as (_ & _ & _ & Hc).
   destruct (Hc _ Hn) as [[_ HN] _]. now rewrite Hpc in HN.
+Qed.
+
+(* ---------- frame: a node only changes its own database; a loader only one that is not steady ---------- *)
+Definition same_db (st st' : store) (d : N) : Prop :=
+  aget (regc st') d = aget (regc st) d /\
+  option_map snd (aget (s_cfg st') d) = option_map snd (aget (s_cfg st) d).
+
+Lemma same_db_refl st d : same_db st st d.
+Proof. split; reflexivity. Qed.
+Lemma same_db_trans st1 st2 st3 d : same_db st1 st2 d -> same_db st2 st3 d -> same_db st1 st3 d.
+Proof. intros [A1 A2] [B1 B2]. split; congruence. Qed.
+
+Lemma steady_same st st' d : same_db st st' d -> steady st d -> steady st' d.
+Proof.
+  intros [Hr Hc] (e & c & cf & He & Hcf & Hcur). rewrite Hcf in Hc. cbn in Hc.
+  destruct (aget (s_cfg st') d) as [[c' cf']|] eqn:E; [|discriminate]. cbn in Hc. injection Hc as ->.
+  exists e, c', cf. rewrite Hr. auto.
+Qed.
+
+Lemma same_db_cfg_other st st' d d' :
+  s_reg st' = s_reg st -> (forall x, x <> d -> aget (s_cfg st') x = aget (s_cfg st) x) -> d' <> d ->
+  same_db st st' d'.
+Proof. intros Hr Ho Hn. split; [unfold regc, read_reg; now rewrite Hr | now rewrite Ho]. Qed.
+
+Lemma same_db_write st nd st1 sn1 d' :
+  SInv st -> WriteReady st nd -> write_reg st (n_reg nd) = Some (st1, sn1) ->
+  steady st d' -> (is_load (n_op nd) = true \/ d' <> op_db (n_op nd)) -> same_db st st1 d'.
+Proof.
+  intros HS HW Wr Hst Hd'. destruct (write_ready _ _ HS HW) as (st2 & sn2 & Wr2 & _ & Hrd & Hcf & Hsn).
+  rewrite Wr in Wr2. injection Wr2 as <- <-.
+  destruct HW as (_ & _ & k & Hk & Hkey). split; [|now rewrite Hcf].
+  unfold regc at 1. rewrite Hrd, Hsn. apply Hk. unfold wr_key in Hkey.
+  destruct (is_load (n_op nd)).
+  - intros ->. contradiction.
+  - destruct Hd' as [?|Hd']; [discriminate|]. congruence.
+Qed.
+
+Lemma do_step_frame st nd expired pick st' nd' b d' :
+  do_step st nd expired pick = (st', nd', b) ->
+  SInv st -> NodeInv st nd ->
+  steady st d' -> (is_load (n_op nd) = true \/ d' <> op_db (n_op nd)) ->
+  same_db st st' d'.
+Proof.
+  unfold do_step. intros H HS [Hwf HN] Hst Hd'. unfold opwf in Hwf.
+  assert (is_load (n_op nd) = false -> d' <> op_db (n_op nd)) as Hd.
+  { intros E. destruct Hd' as [E'|?]; [congruence | assumption]. }
+  destruct (n_pc nd) eqn:Hpc.
+  - (* PGetReg *)
+    cbn [n_reg set_reg sn_reg] in H.
+    repeat match type of H with
+    | context [match ?x with _ => _ end] => destruct x
+    | context [if ?x then _ else _] => destruct x
+    end; injection H as <- _ _; apply same_db_refl.
+  - repeat match type of H with
+    | context [match ?x with _ => _ end] => destruct x
+    | context [if ?x then _ else _] => destruct x
+    end; injection H as <- _ _; apply same_db_refl.
+  - (* PWfcdDel *)
+    destruct (cfg_delete st (op_db (n_op nd)) cas) as [st1|] eqn:D.
+    + destruct (cfg_delete_spec _ _ _ _ D) as (_ & Hr & _ & _ & Ho).
+      assert (same_db st st1 d') as Hs by (eapply same_db_cfg_other; eauto).
+      destruct v; [destruct (aget (sn_reg (n_reg nd)) (op_db (n_op nd)))|]; injection H as <- _ _; exact Hs.
+    + destruct v; injection H as <- _ _; apply same_db_refl.
+  - (* PRbWriteW *)
+    destruct HN as (HW & _).
+    destruct (write_reg st (n_reg nd)) as [[st1 sn1]|] eqn:Wr; injection H as <- _ _; [|apply same_db_refl].
+    eapply same_db_write; eauto.
+  - (* PGdcRead *)
+    repeat match type of H with
+    | context [match ?x with _ => _ end] => destruct x
+    | context [if ?x then _ else _] => destruct x
+    end; injection H as <- _ _; apply same_db_refl.
+  - (* PRbTouch *)
+    destruct (cfg_touch st d cas) as [[st1 c1]|] eqn:T.
+    + destruct (cfg_touch_spec _ _ _ _ _ T) as (cf0 & Hc0 & Hr & _ & Hn & Ho).
+      assert (same_db st st1 d') as Hs.
+      { split; [unfold regc, read_reg; now rewrite Hr|].
+        destruct (N.eq_dec d' d) as [->|Hne]; [now rewrite Hn, Hc0 | now rewrite Ho]. }
+      destruct (rollback_db (sn_reg (n_reg nd)) d cf) as [[R' bad]|]; injection H as <- _ _; exact Hs.
+    + injection H as <- _ _. apply same_db_refl.
+  - (* PRbWriteG *)
+    destruct (write_reg st (n_reg nd)) as [[st1 sn1]|] eqn:Wr; injection H as <- _ _; [|apply same_db_refl].
+    eapply same_db_write; eauto.
+  - (* PMainWrite *)
+    destruct HN as (HW & _).
+    destruct (main_next (n_op nd) cs); [|injection H as <- _ _; apply same_db_refl].
+    destruct (write_reg st (n_reg nd)) as [[st1 sn1]|] eqn:Wr; injection H as <- _ _; [|apply same_db_refl].
+    eapply same_db_write; eauto.
+  - (* PInsCfg *)
+    destruct (n_op nd) eqn:Eo; try (injection H as <- _ _; apply same_db_refl).
+    destruct (cfg_insert st _ _) as [st1|] eqn:Ins; injection H as <- _ _; [|apply same_db_refl].
+    destruct (cfg_insert_spec _ _ _ _ Ins) as (_ & Hr & _ & _ & Ho).
+    eapply same_db_cfg_other; eauto. apply Hd. reflexivity.
+  - (* PUpdCfg *)
+    destruct (cfg_write st _ cas cf) as [[st1 c1]|] eqn:Wc; injection H as <- _ _; [|apply same_db_refl].
+    destruct (cfg_write_spec _ _ _ _ _ _ Wc) as (_ & Hr & _ & _ & Ho).
+    eapply same_db_cfg_other; eauto.
+  - (* PDelCfg *)
+    destruct (cfg_delete st _ cas) as [st1|] eqn:D; injection H as <- _ _; [|apply same_db_refl].
+    destruct (cfg_delete_spec _ _ _ _ D) as (_ & Hr & _ & _ & Ho).
+    eapply same_db_cfg_other; eauto.
+  - (* PFinGet *)
+    cbn [n_reg set_reg sn_reg] in H.
+    repeat match type of H with
+    | context [match ?x with _ => _ end] => destruct x
+    | context [if ?x then _ else _] => destruct x
+    end; injection H as <- _ _; apply same_db_refl.
+  - (* PFinWrite *)
+    destruct HN as (HW & _).
+    destruct (write_reg st (n_reg nd)) as [[st1 sn1]|] eqn:Wr.
+    + injection H as <- _ _. eapply same_db_write; eauto.
+    + destruct (5 <=? fa)%nat; injection H as <- _ _; apply same_db_refl.
+  - injection H as <- _ _. apply same_db_refl.
+  - injection H as <- _ _. apply same_db_refl.
+  - injection H as <- _ _. apply same_db_refl.
+Qed.
+
+(* ---------- acked_not_lost for crash-sequential runs ---------- *)
+Lemma mono_from_app c a b : mono_from c (a ++ b) -> mono_from c a /\ mono_from (last_from c a) b.
+Proof.
+  revert c. induction a as [|e a IH]; intros c H; cbn in *; [auto|].
+  destruct e as [i ex pk|j]; [destruct H as [Hle H]; destruct (IH _ H); auto | apply IH, H].
+Qed.
+
+(* the operations of the nodes never change *)
+Definition ops_fixed (ops : list opk) (w : world) : Prop :=
+  forall i nd, nth_error (w_nodes w) i = Some nd -> nth_error ops i = Some (n_op nd).
+
+Lemma ops_fixed_step ops w e : ops_fixed ops w -> ops_fixed ops (step w e).
+Proof.
+  intros HF. destruct e as [i ex pk|i]; cbn.
+  - destruct (nth_error (w_nodes w) i) as [nd|] eqn:Hn; [|exact HF].
+    destruct (n_crashed nd || is_done nd); [exact HF|].
+    destruct (do_step (w_st w) nd ex pk) as [[st1 nd1] bad] eqn:D. cbn.
+    intros j nd' Hj. destruct (Nat.eq_dec i j) as [->|Hne].
+    + rewrite (nth_error_set_nth_eq _ _ _ _ Hn) in Hj. injection Hj as <-.
+      rewrite (do_step_op _ _ _ _ _ _ _ D). now apply HF.
+    + rewrite nth_error_set_nth_neq in Hj by exact Hne. now apply HF.
+  - destruct (nth_error (w_nodes w) i) as [nd|] eqn:Hn; [|exact HF]. cbn.
+    intros j nd' Hj. destruct (Nat.eq_dec i j) as [->|Hne].
+    + rewrite (nth_error_set_nth_eq _ _ _ _ Hn) in Hj. injection Hj as <-. cbn. now apply HF.
+    + rewrite nth_error_set_nth_neq in Hj by exact Hne. now apply HF.
+Qed.
+
+Lemma ops_fixed_init st ops : ops_fixed ops (init_world st ops).
+Proof.
+  intros i nd Hn. cbn in Hn. rewrite nth_error_map in Hn.
+  destruct (nth_error ops i) as [o|]; [|discriminate]. injection Hn as <-. destruct o; reflexivity.
+Qed.
+
+Lemma ops_fixed_run ops evs : forall w, ops_fixed ops w -> ops_fixed ops (fold_left step evs w).
+Proof. induction evs as [|e evs IH]; intros w H; cbn; [exact H | apply IH, ops_fixed_step, H]. Qed.
+
+(* which nodes perform a storage call in a schedule *)
+Definition steps_of (evs : list event) (i : nat) : Prop := exists ex pk, In (Step i ex pk) evs.
+
+Lemma stable_run ops d evs : forall w cur st0,
+  WInv w cur -> mono_from cur evs -> ops_fixed ops w ->
+  steady st0 d -> same_db st0 (w_st w) d ->
+  (forall i o, steps_of evs i -> nth_error ops i = Some o -> is_load o = true \/ d <> op_db o) ->
+  same_db st0 (w_st (fold_left step evs w)) d.
+Proof.
+  induction evs as [|e evs IH]; intros w cur st0 HW Hm HF Hst Hsame Hops; cbn; [exact Hsame|].
+  assert (forall i o, steps_of evs i -> nth_error ops i = Some o -> is_load o = true \/ d <> op_db o) as Hops'.
+  { intros i o (ex & pk & Hin). apply Hops. exists ex, pk. now right. }
+  destruct e as [i ex pk|j]; cbn in Hm.
+  - destruct Hm as [Hle Hm].
+    apply (IH (step w (Step i ex pk)) i st0); auto.
+    + eapply step_seq; eauto.
+    + now apply ops_fixed_step.
+    + (* the step itself *)
+      pose proof (WInv_advance _ _ _ HW Hle) as (HS & _ & _ & Hc). cbn.
+      destruct (nth_error (w_nodes w) i) as [nd|] eqn:Hn; [|exact Hsame].
+      destruct (n_crashed nd || is_done nd); [exact Hsame|].
+      destruct (do_step (w_st w) nd ex pk) as [[st1 nd1] bad] eqn:D. cbn.
+      eapply same_db_trans; [exact Hsame|].
+      destruct (Hc _ Hn) as [HN _].
+      eapply do_step_frame; eauto.
+      * eapply steady_same; eauto.
+      * apply (Hops i (n_op nd)); [exists ex, pk; now left | now apply HF].
+  - apply (IH (step w (Crash j)) cur st0); auto.
+    + now apply crash_seq.
+    + now apply ops_fixed_step.
+    + cbn. destruct (nth_error (w_nodes w) j); exact Hsame.
+Qed.
+
+(* acked_not_lost, crash-sequential runs: once a database is steady (in particular after an acknowledged create
+   or update: acked_seq), every later node that does not target it -- other databases' creates / updates /
+   deletes, completed or crashed at any point, and any GetDatabaseConfigs with its repairs -- leaves its registry
+   entry and its config document exactly as they are *)
+Theorem steady_stable_seq ops evs1 evs2 d :
+  sequential (evs1 ++ evs2) ->
+  steady (w_st (run ops evs1)) d ->
+  (forall i o, steps_of evs2 i -> nth_error ops i = Some o -> is_load o = true \/ d <> op_db o) ->
+  same_db (w_st (run ops evs1)) (w_st (run ops (evs1 ++ evs2))) d.
+Proof.
+  intros Hm Hst Hops. apply mono_from_app in Hm as [Hm1 Hm2].
+  unfold run, run_from. rewrite fold_left_app.
+  eapply stable_run; eauto.
+  - apply run_seq; [apply WInv_init, SInv_init | exact Hm1].
+  - apply ops_fixed_run, ops_fixed_init.
+  - apply same_db_refl.
+Qed.
+
+Lemma acked_steady o st : acked_state o st -> is_load o = false -> (forall d, o <> ODelete d) -> steady st (op_db o).
+Proof.
+  destruct o as [d dig cols|d dig cols|d|]; cbn; intros H Hl Hd; try discriminate.
+  - destruct H as (e & c & He & Hcur & Hc). exists e, c, (CF (1, dig) cols). auto.
+  - destruct H as (e & c & g & He & Hcur & Hc). exists e, c, (CF (g, dig) cols). auto.
+  - exfalso. eapply Hd. reflexivity.
 Qed.
